@@ -258,6 +258,10 @@ func (g *gen15) focusName(pc string) string {
 		return u
 	case "dotfile":
 		return "." + rn
+	case "dotunder": // "._name" at the top: an ordinary chart file
+		return "._" + rn
+	case "dotundernested":
+		return []string{"files/", "docs/" + chartishName(g.r, nil) + "/", "config/"}[g.r.Intn(3)] + "._" + rn
 	case "tpldot":
 		return "templates/." + rn
 	case "chartsentry":
